@@ -49,7 +49,8 @@ def opDur (ts : Bool) (j : Json) : Json :=
   let r : PDur := ⟨getInt j "s", getInt j "n"⟩
   let res := if ts then timestampRead r else durationRead r
   match res with
-  | .ok d => obj [("class", strJ "ok"), ("secs", intJ d.secs), ("nanos", intJ d.nanos)]
+  | .ok d => obj ([("class", strJ "ok"), ("secs", intJ d.secs), ("nanos", intJ d.nanos)] ++
+      (if ts then [("display_ok", Json.bool (utcDisplay d).isOk), ("debug_ok", Json.bool (utcDebug d).isOk)] else []))
   | r => obj (clsOf r)
 
 def opBitvec (j : Json) : Json :=
@@ -138,8 +139,15 @@ def opMuxHs (j : Json) : Json :=
 def opFrame (j : Json) : Json :=
   match getStr j "kind", getNat j "max", getNatList j "avail", getBool j "dec" with
   | some kind, some max, some avail, some dec =>
-    let r := if kind = "mux" then Frame.muxRecvProto (fun _ => dec) max avail else Frame.recvProto (fun _ => dec) max avail
-    obj [("class", strJ r.cls.name), ("alloc_le_max", Json.bool (decide (r.alloc ≤ max))), ("_alloc", natJ r.alloc)]
+    if kind = "mux" then
+      -- through `rpc::Service`: the peer only sees whether the server answered; a bad request closes the transient
+      -- stream, never the connection
+      let r := Frame.muxRecvProto (fun _ => dec) max avail
+      obj [("class", strJ (if r.cls = .ok then "ok" else "rejected")), ("alive", Json.bool true),
+           ("alloc_le_max", Json.bool (decide (r.alloc ≤ max))), ("_cls", strJ r.cls.name)]
+    else
+      let r := Frame.recvProto (fun _ => dec) max avail
+      obj [("class", strJ r.cls.name), ("alloc_le_max", Json.bool (decide (r.alloc ≤ max))), ("_alloc", natJ r.alloc)]
   | _, _, _, _ => badOp
 
 def opPreface (j : Json) : Json :=
